@@ -807,10 +807,12 @@ JUNK = ["&", "#", "$", "*", "(", ")", ":", "=", ",", ".", "+", "-", "!", "?", "a
         "\u00e9", "\u00b0"]
 REPLACEMENTS = ["0", "-1", "1.5", "j", "2r", "3i", "1e", "x", "zz9", "(", ")", ":", "#", "=", "like", "but",
                 "imp:n", "u=2", "*", "1-2", "--1", ".", "1.2.3", "99999999999999999999", "1e999", "fill", "so",
-                "m", "tr", "n", "1e-3"]
-TOKEN_KINDS = ["delete", "duplicate", "replace", "junk", "truncate", "negate", "zero", "deint", "dangle", "dupnum"]
+                "m", "tr", "n", "1e-3", "c", "C"]
+TOKEN_KINDS = ["delete", "duplicate", "replace", "junk", "truncate", "negate", "zero", "deint", "dangle", "dupnum",
+               "comment_out"]
 FILE_KINDS = ["drop_block", "drop_blank", "read_missing", "read_self", "read_valid", "read_nofile", "read_bare", "read_fle",
-              "read_eq", "only_title", "empty"]
+              "read_eq", "read_sub_commented", "drop_block_keep_comment", "read_diamond", "read_diamond_retarget",
+              "only_title", "empty"]
 REF_ROLES = ("surfref", "cellref", "matnum", "trref", "perref", "pval:fill", "dval:fill")
 NUM_ROLES = ("cellnum", "surfnum", "dataword")
 
@@ -836,6 +838,8 @@ def applicable(tok, toks):
             ks.append("deint")
     if tok["role"] in REF_ROLES and _INT.match(t) and t.strip("+-0") != "":
         ks.append("dangle")
+    if tok["idx"] == 0:
+        ks.append("comment_out")
     if tok["role"] in ("cellnum", "surfnum") or (tok["role"] == "dataword" and re.match(r"^[*+]?(m|tr)\d+$", t.lower())):
         ks.append("dupnum")
     return ks
@@ -889,6 +893,14 @@ def corrupt(text, toks, tok, kind, rng):
         r = ("-" if t.startswith("-") else "") + str(n)
         d["repl"] = r
         new = _edit(text, tok, r)
+    elif kind == "comment_out":
+        # the first token of an input replaced by `c`, or `c ` put in front of it: the line becomes a comment line
+        how = rng.choice(["replace", "insert"])
+        d["how"] = how
+        d["repl"] = "c" if how == "replace" else "c " + t
+        if tok["c0"] > 4:
+            return None
+        new = _edit(text, tok, d["repl"])
     elif kind == "dupnum":
         same = [x for x in toks if x["role"] == tok["role"] and x["card"] != tok["card"] and x["idx"] == 0]
         if tok["role"] == "dataword":
@@ -941,6 +953,25 @@ def file_corruptions(text, info, rng, name="case.i"):
         if len(blanks) >= 2:
             new = lines[:at] + [card] + lines[at:]
             out.append(("\n".join(new), {"kind": kind, "where": "data", "card": card}, dict(sub)))
+    # the same read input whose target holds only a commented-out input
+    if len(blanks) >= 2:
+        new = lines[:at] + ["read file=sub13.i"] + lines[at:]
+        out.append(("\n".join(new), {"kind": "read_sub_commented", "where": "data"}, {"sub13.i": "c ctme 77\n"}))
+    # a block whose inputs are gone while a comment line of it remains
+    for k in range(min(3, len(blanks))):
+        new = lines[:starts[k]] + ["c the inputs of this block were removed"] + lines[blanks[k]:]
+        out.append(("\n".join(new), {"kind": "drop_block_keep_comment", "block": k}, None))
+    # a tree of read inputs with a diamond (left and right both read shared; no numbered object in the sub-files):
+    # intact, and with the read target inside `shared` replaced (one corruption): cycles over either route, a self
+    # read, the top file, a missing file
+    if len(blanks) >= 2:
+        def tree(shared_target):
+            return {"left13.txt": "read file=shared13.txt\nctme 11\n", "right13.txt": "read file=shared13.txt\nlost 5 5\n",
+                    "shared13.txt": "read file=%s\nprdmp 2j 1\n" % shared_target, "leaf13.txt": "dbcn 7\n"}
+        new = "\n".join(lines[:at] + ["read file=left13.txt", "read file=right13.txt"] + lines[at:])
+        out.append((new, {"kind": "read_diamond", "target": "leaf13.txt"}, tree("leaf13.txt")))
+        for tgt in ("right13.txt", "left13.txt", "shared13.txt", name, "no_such_file_c13.txt"):
+            out.append((new, {"kind": "read_diamond_retarget", "target": tgt}, tree(tgt)))
     out.append((lines[info["title_line"]] + "\n", {"kind": "only_title"}, None))
     out.append(("", {"kind": "empty"}, None))
     return out
@@ -1183,17 +1214,24 @@ def trailing_cards(text):
 
 
 def missing_read_content(case, summ):
-    """first words of the cards of well-formed read targets (data block, file present) that the problem lacks"""
+    """first words of the cards of well-formed read targets (data block, file present, followed through the read
+    inputs of the targets) that the problem lacks"""
     files = case.get("files") or {}
     miss = []
-    for m in re.finditer(r"(?im)^ {0,4}read\s+file\s*=\s*(\S+)\s*$", case["text"]):
-        t = m.group(1)
-        if t in files:
-            for l in files[t].split("\n"):
-                if l.strip() and not _is_comment(l) and l[:5].strip() and not l.lower().startswith("read"):
-                    w = l.split()[0].lower()
-                    if w not in summ.get("data", []):
-                        miss.append(w)
+    seen = set()
+    todo = [case["text"]]
+    while todo:
+        text = todo.pop()
+        for m in re.finditer(r"(?im)^ {0,4}read\s+file\s*=\s*(\S+)\s*$", text):
+            t = m.group(1)
+            if t in files and t not in seen:
+                seen.add(t)
+                todo.append(files[t])
+                for l in files[t].split("\n"):
+                    if l.strip() and not _is_comment(l) and l[:5].strip() and not l.lower().startswith("read"):
+                        w = l.split()[0].lower()
+                        if w not in summ.get("data", []):
+                            miss.append(w)
     return miss
 
 
@@ -1266,7 +1304,12 @@ def base_problem(seed, i):
     """the i-th well-formed file of a run"""
     import gen
     rng = random.Random(f"{seed}:C13:base:{i}")
-    P = gen.gen_problem(rng, dict(max_cells=6))
+    if i % 4 == 1:
+        # a small problem: blocks with a single input are frequent (one cell, one surface, only MODE in the data block)
+        P = gen.gen_problem(rng, dict(max_cells=rng.choice([1, 1, 2]), materials=False, transforms=False, extras=False,
+                                      data_mods=False, universes=False, message=False))
+    else:
+        P = gen.gen_problem(rng, dict(max_cells=6))
     L = gen.layout_opts(rng, wild=(i % 3 == 0))
     return gen.render(rng, P, L)
 
@@ -1279,6 +1322,10 @@ def cases_of_base(seed, i, text, per_token, rng):
     for tok in toks:
         ks = applicable(tok, toks)
         chosen = ks if per_token <= 0 else rng.sample(ks, min(per_token, len(ks)))
+        if per_token > 0 and tok["idx"] == 0 and "comment_out" not in chosen:
+            # turning an input into a comment line: always (an input that is the only one of its block leaves a block
+            # of comment lines)
+            chosen = chosen + ["comment_out"]
         if per_token > 0 and tok["role"] in ("cellnum", "surfnum", "matnum"):
             # the numbers that identify objects: always all number corruptions (they are few)
             chosen = chosen + [k for k in ("negate", "zero", "deint", "dupnum") if k in ks and k not in chosen]
@@ -1633,6 +1680,11 @@ def run(ctx):
                     ff = [x for x in judge(c, fresh) if x["sig"] == f["sig"]]
                     if not ff:
                         extra.setdefault("not_confirmed_in_fresh_process", []).append(f["sig"])
+                        continue
+                    if f["kind"] in ("hang", "worker-died"):
+                        # every shrinking step of a hang costs the full alarm: report the case as it is
+                        if ctx.fail(rec):
+                            nviol += 1
                         continue
                     small = shrink_case(pool, c, lambda cc, rr, sig=f["sig"]: any(x["sig"] == sig for x in judge(cc, rr)))
                     ev = evaluate(pool, [small])
